@@ -232,6 +232,12 @@ for _pid, _nt, _txt in [("C09", "length >= 2", "TreeWF/EndpointsWF hold on every
         technique="TLA+ reference interpreter of the D2 core fragment as a state machine (one Declare per source declaration) model-checked by TLC over all programs within the bound; every line prefix of every program compiled by the real d2compiler and compared by TLC with the model state, aspect by aspect",
         rule=_ir_rule + _nt + ".", exhaustive=dict(quick=True, thorough=True), assumptions=_ir_assume, text=_txt,
         note="Trusted: TLC, Json module, the projection in harness/internal/proj (uses the real ParseKey), the renderer of declarations to D2 text in harness/cmd/vdrive/ir.go.")
+# C10 is also decided on the class alphabet: class values are defaults under an object's own values
+PROPS["C10"]["also"] = ["irclass"]
+PROPS["C10"]["rule"] += (" The same is done over the 30-declaration alphabet specs/ir_alphabet_class.json: objects with own shapes and style values, attribute and object null, 7 class definitions (two classes, one spelled in another letter case, "
+                         "definitions before and after their uses, a redefinition), 8 class assignments (single, lists in both orders, an unknown class, on a nested object) and the removal of the class.")
+PROPS["C10"]["assumptions"] = _ir_assume + ["classes (DEVIATION-4 of D2IR.tla, following the code where the property text is silent): a class value is a default under the object's own value wherever either is written; the last class assignment replaces earlier ones; "
+                                             "in a class list the later class wins; a class label counts as a label field; class names fold case; an unknown class is ignored"]
 
 
 # ---------------------------------------------------------------------------------- irglob (C12)
@@ -244,6 +250,9 @@ def corrupt_irglob(lines, pid):
     return None
 
 
+_CLASS_RENAMES = {"ir_alphabet.json": "ir_alphabet_class.json"}
+FAMILIES["irclass"] = dict(vdrive="ir", trace_module="TraceD2IR", trace_cfg="TraceD2IR.cfg", corrupt=corrupt_ir, engine="TraceD2IR",
+                           args={"alphabet": _os.path.join(_SPECS, "ir_alphabet_class.json")}, chunk=6000, heap="4g", renames=_CLASS_RENAMES)
 _GLOB_RENAMES = {"ir_alphabet.json": "ir_alphabet_glob.json"}
 FAMILIES["irglob"] = dict(vdrive="ir", trace_module="TraceD2IR", trace_cfg="TraceD2IR_glob.cfg", corrupt=corrupt_irglob, engine="TraceD2IR",
                           args={"alphabet": _os.path.join(_SPECS, "ir_alphabet_glob.json")}, chunk=6000, heap="4g", renames=_GLOB_RENAMES)
